@@ -64,4 +64,6 @@ Definition py_float (s0 : chars) : option dec :=
       end
   end.
 
+Definition strip_chars_ (s : chars) : chars := list_of_string (str_strip (string_of_list s)).
+
 Definition dec_val {N : NumOps} (d : dec) : T N := of_dec N (d_man d) (d_exp d).
